@@ -6,6 +6,7 @@ import ast
 from .. import kernelspec
 from ..dataflow import flow_of
 from ..model import AnalysisError, FuncInfo, Program, body_walk, calls_in_body, dotted, norm, parent
+from ..normalform import canon
 from ..report import Result
 
 TITLE = "FFT-based operations equal their direct time-domain definitions"
@@ -107,6 +108,41 @@ def run(prog: Program, res: Result, tier: str) -> None:
     ok = len(sites) >= 1 and all(n_ is not None and norm(n_) == "self.header.nsamples" for c, n_ in sites)
     (res.ok if ok else res.bad)("R2", fi, fi.node, "the default inverse uses header.nsamples, the length rfft recorded" if ok else
                                 "FourierSeries.ifft does not invert to header.nsamples", construct="ifft", key="ifft-length")
+    # a spectrum read back from a headered file: the SIGPROC header's nsamples is derived from the file size, i.e. it
+    # counts the floats of the spectrum (n + 2), not the samples of the series - the length ifft inverts to must be
+    # re-derived from the number of bins (F53)
+    fsp = prog.func("sigpyproc.fourierseries", "FourierSeries.from_spec")
+    fl_ = flow_of(fsp, prog)
+    rets_ = [s_ for s_ in body_walk(fsp.node) if isinstance(s_, ast.Return) and s_.value is not None]
+    ok = bool(rets_)
+    why_ = ""
+    for r_ in rets_:
+        ex_ = fl_.expand(r_.value, fl_.cfg.node_for(r_))
+        if not (isinstance(ex_, ast.Call) and len(ex_.args) >= 2):
+            ok, why_ = False, "from_spec no longer returns cls(spectrum, header)"
+            continue
+        d_, h_ = ex_.args[0], ex_.args[1]
+        upd_ = h_.args[0] if isinstance(h_, ast.Call) and isinstance(h_.func, ast.Attribute) and h_.func.attr == "new_header" and h_.args else None
+        val_ = next((v for k, v in zip(upd_.keys, upd_.values) if isinstance(k, ast.Constant) and k.value == "nsamples"), None) if isinstance(upd_, ast.Dict) else None
+        if val_ is None:
+            ok, why_ = False, ("from_spec keeps the nsamples that Header.from_sigproc derives from the file size (the number of floats, n + 2): "
+                               "ifft() then inverts to n + 2 samples, and rfft -> to_spec -> from_spec -> ifft does not return the series")
+            continue
+        import copy as _copy
+
+        def tmpl(text: str, x: ast.AST) -> str:
+            t_ = ast.parse(text, mode="eval").body
+
+            class _S(ast.NodeTransformer):
+                def visit_Name(self, node):  # noqa: N802
+                    return _copy.deepcopy(x) if node.id == "X" else node
+            return canon(_S().visit(t_))
+        f_arr = d_.func.value if isinstance(d_, ast.Call) and isinstance(d_.func, ast.Attribute) and d_.func.attr == "view" else None
+        want_ = {tmpl("2 * (X.size - 1)", d_), tmpl("2 * (len(X) - 1)", d_)} | ({tmpl("X.size - 2", f_arr), tmpl("len(X) - 2", f_arr)} if f_arr is not None else set())
+        if canon(val_) not in want_:
+            ok, why_ = False, f"from_spec records nsamples = `{norm(val_)}`, which is not the transform length 2*(nbins - 1) of the spectrum it read"
+    (res.ok if ok else res.bad)("R2", fsp, fsp.node, "from_spec records the transform length 2*(nbins-1), not the float count the file size gives" if ok else why_,
+                                construct="from_spec", key="from_spec:length")
 
     # ---- R3 definitions -------------------------------------------------------------------------------
     for name in ("fftconvolve", "form_mspec"):
@@ -128,7 +164,7 @@ def run(prog: Program, res: Result, tier: str) -> None:
              for e in normal_form(fs).returns())
     (res.ok if ok else res.bad)("R3", fs, fs.node, "form_spec() uses form_mspec on the Fourier bins" if ok else "form_spec no longer uses form_mspec", construct="form_spec", key="form_spec")
     res.floor("R1", 5)
-    res.floor("R2", 4)
+    res.floor("R2", 5)
     res.floor("R3", 4)
 
 
@@ -153,7 +189,15 @@ MUTANTS = [
     {"id": "c12-ifft-wrong-length", "file": "sigpyproc/fourierseries.py", "expect": "C12.R2",
      "old": "            tim_ar = kernels.nb_irfft(self.data, self.header.nsamples)", "new": "            tim_ar = kernels.nb_irfft(self.data, 2 * (self.data.size - 1))"},
 ]
+MUTANTS += [
+    {"id": "c12-revert-F53", "file": "sigpyproc/fourierseries.py", "expect": "C12.R2",
+     "old": "        return cls(spec, header.new_header({\"nsamples\": 2 * (spec.size - 1)}))", "new": "        return cls(spec, header)"},
+    {"id": "c12-from-spec-float-count", "file": "sigpyproc/fourierseries.py", "expect": "C12.R2",
+     "old": "        return cls(spec, header.new_header({\"nsamples\": 2 * (spec.size - 1)}))", "new": "        return cls(spec, header.new_header({\"nsamples\": 2 * spec.size}))"},
+]
 TWINS = [
+    {"id": "c12-twin-from-spec-float-size", "file": "sigpyproc/fourierseries.py",
+     "old": "        return cls(spec, header.new_header({\"nsamples\": 2 * (spec.size - 1)}))", "new": "        nsamples = data.size - 2\n        return cls(spec, header.new_header({\"nsamples\": nsamples}))"},
     {"id": "c12-twin-kw", "file": KF,
      "old": "    ret = np.fft.irfft(sp1 * sp2, n_good)", "new": "    ret = np.fft.irfft(sp1 * sp2, n=n_good)"},
 ]
